@@ -163,6 +163,29 @@ def run(ctx):
                 "lead-surrogate test (path: %s): a CR delivered alone is not held back for the LF that follows"
                 % (label, " -> ".join(reversed(cfg.witness(par, crlf[0]))) if reached else ""),
                 {"abstract_length": label}, detail={"abstract_length": label, "test_evaluated_on_every_path": True})
+    # characters appended to the chunk after the test (a read-ahead) can end in CR / a lead surrogate themselves: the test is
+    # evaluated again before the chunk is normalised
+    def whole_or_last_test(n):
+        return last_char_test(n) or (n.kind == "test" and ("%s == '\\r'" % var) in norm(n.ast))
+    ext = [n for n in cfg.stmt_nodes() if n.kind == "stmt" and (
+        (isinstance(n.ast, ast.AugAssign) and isinstance(n.ast.op, ast.Add) and norm(n.ast.target) == var) or
+        (isinstance(n.ast, ast.Assign) and norm(n.ast.targets[0]) == var and isinstance(n.ast.value, ast.BinOp) and isinstance(n.ast.value.op, ast.Add)
+         and norm(n.ast.value.left) == var))]
+    for k, e in enumerate(ext):
+        # after a non-empty read-ahead the chunk holds at least two characters (an empty one changes nothing: end of input)
+        def edge_ok2(src, dst, lab):
+            if src.kind == "test":
+                d = decide(src, 2)
+                if d is not None and lab is not d:
+                    return False
+            return True
+        par = cfg.reach_forward([e], whole_or_last_test, edge_ok2)
+        reached = crlf[0].id in par
+        r.check("C05.3", not reached, "carry-test-after-read-ahead::%d" % k, "%s:%d" % (REL, e.lineno),
+                "`%s` appends what a further read delivered and the chunk is then normalised without looking at its (new) last character "
+                "(path: %s): a CR read on its own followed by a read that ends in CR splits the CR LF that the next read completes (CR CR LF "
+                "counts three line breaks)" % (norm(e.ast)[:60], " -> ".join(reversed(cfg.witness(par, crlf[0]))) if reached else ""),
+                detail={"extension": norm(e.ast)[:60]})
     chunk_invariants(ctx)
 
 
@@ -490,6 +513,8 @@ def mutants():
           "            data = self._bufferedCharacter + data", "C05.2"),
         T("unget-no-size", REL, "                self.chunk = char + self.chunk\n                self.chunkSize += 1", "                self.chunk = char + self.chunk", "C05.4"),
         T("char-off-by-one", REL, "        if self.chunkOffset >= self.chunkSize:\n            if not self.readChunk():", "        if self.chunkOffset > self.chunkSize:\n            if not self.readChunk():", "C05.5"),
+        T("read-ahead-not-retested", REL, "        if len(data) > 1:\n            lastv = ord(data[-1])\n            if lastv == 0x0D or 0xD800 <= lastv <= 0xDBFF:\n                self._bufferedCharacter = data[-1]\n                data = data[:-1]\n",
+          "        if len(data) > 1:\n            lastv = ord(data[-1])\n            if lastv == 0x0D or 0xD800 <= lastv <= 0xDBFF:\n                self._bufferedCharacter = data[-1]\n                data = data[:-1]\n        elif data == \"\\r\":\n            data += self.dataStream.read(chunkSize)\n", "C05.3"),
         T("lone-cr-not-extended", REL, "        while len(data) == 1 and (data == \"\\r\" or 0xD800 <= ord(data) <= 0xDBFF):\n            more = self.dataStream.read(chunkSize)\n            if not more:\n                break\n            data += more\n", "", "C05.3"),
         T("guard-gt-2", REL, "        if len(data) > 1:\n            lastv = ord(data[-1])", "        if len(data) > 2:\n            lastv = ord(data[-1])", "C05"),
     ]
